@@ -756,6 +756,14 @@ def r8_sort(src, ctx):
         return f'{fn}(&mut {recv});'
     src = re.sub(r'(\w[\w.]*)\.sort_by_key\(\|(\w+)\|\s*([^;{}]*?)\);', rep_sort_key, src)
 
+    def rep_is_sorted_key(m):
+        recv, p, key = m.group(1), m.group(2), m.group(3)
+        key = re.sub(r'^%s\.' % re.escape(p), '', key.strip())
+        fn = 'verif_is_sorted_by_key_' + re.sub(r'\W+', '_', key).strip('_')
+        ctx.log.append(('R8', m.group(0), f'{fn}(&{recv})'))
+        return f'{fn}(&{recv})'
+    src = re.sub(r'(\w[\w.]*)\.is_sorted_by_key\(\|(\w+)\|\s*([^;{}()]*?)\)', rep_is_sorted_key, src)
+
     def rep_sdt(m):
         recv = m.group(1)
         ctx.log.append(('R8', re.sub(r'\s+', ' ', m.group(0)), f'verif_sort_by_date_ticker(&mut {recv});'))
